@@ -4,7 +4,7 @@
    every jump operand the compiler patches lands on an instruction boundary
    inside the program and the stack states agree at every join. *)
 From Coq Require Import ZArith NArith List Bool Lia ZifyBool ZifyNat ZifyN Floats.
-From EvyV Require Import Base Bytecode BytecodeProofs SymTab SymTabProofs Vm VmProofs Compile CompileProofs CompileWfProofs CompileJumpProofs CompileHoleProofs CompileSymProofs.
+From EvyV Require Import Base Bytecode BytecodeProofs SymTab SymTabProofs Vm VmProofs Compile CompileSem CompileProofs CompileWfProofs CompileJumpProofs CompileHoleProofs CompileSymProofs.
 Require Import EvyV.Gen.Opcodes.
 Import ListNotations.
 Open Scope N_scope.
@@ -1327,8 +1327,6 @@ Proof.
 Qed.
 
 (* ---------- the fragment ---------- *)
-Definition ofrag (o : oexpr) : bool := match o with ONoneE => true | OSome e => efrag e end.
-
 (* statements that define a symbol in the current scope: inside a block it is
    a local; at top level (a global) they are treated apart (TL) *)
 Definition needs_scope (s : stmt) : bool :=
